@@ -3,11 +3,6 @@
    The view V is the last observed content of every account seen so far.  Executable definitions only. *)
 From DZ Require Import Base Keys Merkle BurnRate Shares Swap_Ring State World SwapDeq RD Passport Swap Exec Corr.
 
-Definition view := kmap acct.
-Definition vget (V : view) (k : key) : acct := match lookup k V with Some a => a | None => empty_acct end.
-Fixpoint vupd (V : view) (post : list (key * acct)) : view :=
-  match post with [] => V | (k, a) :: tl => vupd (upd k a V) tl end.
-
 (* a violation: step number, the account concerned, a clause number and a witness value *)
 Definition viol := (N * key * N * N)%type.
 
@@ -71,7 +66,7 @@ Definition c11_step (V : view) (ob : obs) : list (key * N * N) :=
           (if lamports (vget V dk) - lamports a1 =? d_relay d0 then [] else [(dk, 4, d_relay d0)])
       | _, _, _ => [] end
   | _ => [] end.
-Definition mon_C11 (tr : list obs) : option viol := mon_go c11_step [] tr 0.
+Definition mon_C11 (tr : list robs) : option viol := mon_go c11_step [] (expand [] tr) 0.
 
 (* ---- C12: rewards finalization with the null root succeeds only when there is nothing to distribute ---- *)
 Definition c12_step (V : view) (ob : obs) : list (key * N * N) :=
@@ -85,4 +80,4 @@ Definition c12_step (V : view) (ob : obs) : list (key * N * N) :=
           (if d_prepaid_2z d =? 0 then [] else [(k, 2, d_prepaid_2z d)])
         else []
     | _, _ => [] end) post.
-Definition mon_C12 (tr : list obs) : option viol := mon_go c12_step [] tr 0.
+Definition mon_C12 (tr : list robs) : option viol := mon_go c12_step [] (expand [] tr) 0.
